@@ -113,8 +113,13 @@ def run(ctx):
                 parts = [ezsplib.gen(d, rng, rng.choice(["zero", "max", "rand", "rand"]), i == len(fields) - 1) for i, (_, _, d) in enumerate(fields)]
                 seq = rng.getrandbits(8)
                 frame = ezsplib.spec_header(version, seq, cid) + b"".join(p[1] for p in parts)
+                # frame IDs this version does not define, the same few again and again through the run (an NCP newer than
+                # the tables keeps sending them): each arrival is dropped like the first
+                known = set(h.COMMANDS_BY_ID) if hasattr(h, "COMMANDS_BY_ID") else set(ids)
+                unknown_ids = [i for i in ((0xF7, 0xE9) if version < 8 else (0x0F37, 0x00F7, 0x1234)) if i not in known]
+                repeated = [ezsplib.spec_header(version, seq, u) + bytes(rng.getrandbits(8) for _ in range(rng.choice([0, 1, 4]))) for u in unknown_ids]
                 for mode in ("pending-same", "pending-other", "none", "dead-same"):
-                    for data in mutations(rng, version, frame, ids, ctx.n(6, 20)):
+                    for data in list(mutations(rng, version, frame, ids, ctx.n(6, 20))) + repeated:
                         h._awaiting.clear()
                         fut = None
                         pend = ("-", "-")
@@ -195,7 +200,7 @@ def run(ctx):
         if i % 40000 == 3:
             ctx.sample({"version": v, "pending": list(pend), "frame": hx(data)[:60], "impl": got[:100], "model": (model[i] if model else None)})
     ctx.cov["rule"] = ("for every version 4..14: valid responses/callbacks of random commands (independent encoder), each truncated at every length and mutated by bit flips, frame-ID substitution, "
-                       "sequence substitution, appended bytes and replaced by random strings; with a pending command of the same frame ID, of another frame ID, and without one; then a fresh command. "
+                       "sequence substitution, appended bytes and replaced by random strings; a few undefined frame IDs arriving again and again on the same handler; with a pending command of the same frame ID, of another frame ID, and without one; then a fresh command. "
                        "distinct = distinct (version, pending, bytes); all reach the receive entry point")
     ctx.exhaustive = False
 
